@@ -82,12 +82,13 @@ def run(ctx):
                                                       and some(minp)(t[2][2]) and mentions(t[2][1], length(arg(2)))))],
                 ok_sinks(f), require_fail_err=False)
         # unknown participant: pre-check or the None arm in the loop
-        anyf = lambda fa: (None if not (fa[0] == "cond" and fa[1] == "any" and mentions(fa[2], arg(2))
-                                        and fa[3] is not None and fa[3][0] == "closure" and any(arg(1)(c) for c in fa[3][2]))
-                           else ("fail" if fa[4] else "pass"))
-        pre = not sep(f, {e for (e, fa) in v.facts if anyf(fa) == "pass"}, ok_sinks(f))
-        if pre:
-            ctx.ok("SEP", f.key, "G30:unknown-participant-refused", {"mechanism": "any(!contains) pre-check"})
+        from ..lib import _forall
+        vsh = fld(arg(1), "verifying_shares")
+        r, _why = _forall(P, v, lambda s: s == ("arg", 2),
+                          [("verifying_shares.contains_key(id)", lambda item: cmp_fact("contains", vsh, item, False))],
+                          ok_sinks(f), True, 0)
+        if r is not None:
+            ctx.ok("SEP", f.key, "G30:unknown-participant-refused", {"mechanism": "pre-check over the identifier list", "form": r["kind"]})
         else:
             src = lambda s: s[0] == "ok" and is_call(s[1], name="generate_secret_shares")
             forall_loop(ctx, f, "LOOPDOM", "G30:unknown-participant-refused", src,
@@ -197,10 +198,14 @@ def run(ctx):
                 if s[0] != "agg" or not s[2].endswith("SecretShare"):
                     return False
                 fl = dict(s[4])
+                def prefixed_map(M):
+                    # the map looked up holds, for every round-one package, [identity] ++ that package's commitment under its sender
+                    comps = map_components(P, f, v, M)
+                    return (len(comps) == 1 and comps[0][0] == "each" and comps[0][1] == ("arg", 2) and comps[0][2] == ("field", ITEM, None, "0")
+                            and mentions(comps[0][3], identity_prefixed(lambda z: mentions(z, lambda q: is_field(q, "Package", "commitment")
+                                                                                            and q[1] == ("field", ITEM, None, "1")))))
                 okc = mentions(fl["commitment"], lambda u: u[0] == "some" and is_call(u[1], name="get")
-                               and tfield(item, 0)(u[1][2][1]) and u[1][2][0][0] == "mut" and
-                               any(o[1] == "insert" and mentions(o[2][1], identity_prefixed(lambda z: mentions(z, lambda q: is_field(q, "Package", "commitment"))))
-                                   for o in u[1][2][0][2]))
+                               and tfield(item, 0)(u[1][2][1]) and prefixed_map(u[1][2][0]))
                 return (mentions(fl["identifier"], fld(arg(1), "identifier")) and
                         fld(tfield(item, 1), "signing_share")(fl["signing_share"]) and okc)
             return succ_fact(m)
@@ -241,20 +246,20 @@ def run(ctx):
                       "identifier-and-threshold-kept", "identifier / threshold of the refreshed key package changed",
                       f.loc)
             vs = get_field(pkp, "verifying_shares")
-            ins = [o for o in vs[2] if o[1] == "insert"] if vs[0] == "mut" else []
-            ctx.check(vs[0] == "mut" and is_call(vs[1], name="new") and not vs[1][2] and all(o[1] == "insert" for o in vs[2]), "PROV", f.key,
-                      "refreshed-package-lists-only-refreshed-identifiers",
-                      "the refreshed public key package's verifying shares must be built from an empty map by the "
-                      "per-identifier inserts only", f.loc)
-            good = len(ins) == 1
+            comps = map_components(P, f, v, vs)
+            zero_pkg = lambda t: mentions(t, lambda u: is_call(u, name="from_dkg_commitments"))
+            only = len(comps) == 1 and comps[0][0] == "each" and zero_pkg(comps[0][1]) and comps[0][2] == ("field", ITEM, None, "0")
+            ctx.check(only, "PROV", f.key, "refreshed-package-lists-only-refreshed-identifiers",
+                      "the refreshed public key package's verifying shares must hold exactly one entry per identifier of the "
+                      "zero-sharing's public key package, under that identifier", f.loc)
+            good = only
             if good:
-                key, val = ins[0][2][0], unwrap_newtypes(ins[0][2][1])
-                good = is_call(val, name="add") and key[0] == "field" and key[3] == "0"
+                key, val = comps[0][2], unwrap_newtypes(comps[0][3])
+                good = is_call(val, name="add") and len(val[2]) == 2
                 if good:
-                    item = key[1]
-                    z = lambda t: mentions(t, lambda u: u[0] == "field" and u[3] == "1" and u[1] == item)
+                    z = lambda t: mentions(t, lambda u: u == ("field", ITEM, None, "1"))
                     old = lambda t: mentions(t, lambda u: u[0] == "some" and is_call(u[1], name="get")
-                                             and fld(arg(4), "verifying_shares")(u[1][2][0]) and u[1][2][1] == key)
+                                             and fld(arg(4), "verifying_shares")(u[1][2][0]) and u[1][2][1] == key) and not z(t)
                     a, b = val[2]
                     good = (z(a) and old(b)) or (z(b) and old(a))
             ctx.check(good, "CODEP", f.key, "refreshed-verifying-share==old+zero-share-image",
